@@ -21,15 +21,24 @@ fn helper() {
     let f: Vec<&str> = after.split(' ').collect(); // state ppid pgrp session
     let out = format!("argv={} pg={} sess={} cwd={} env={}\n", hxl(&args), f[2] != std::env::var("WX_PG").unwrap(), f[3] != std::env::var("WX_SESS").unwrap(),
         hx(std::env::current_dir().unwrap().as_os_str().as_bytes()), hx(std::env::var_os("WX_T").unwrap_or_default().as_bytes()));
-    std::fs::write(std::env::var_os("WX_HELPER_OUT").unwrap(), out).unwrap();
+    { use std::io::Write; let mut f = std::fs::OpenOptions::new().create(true).append(true).open(std::env::var_os("WX_HELPER_OUT").unwrap()).unwrap(); f.write_all(out.as_bytes()).unwrap(); }
+    // multi-run scenarios need a child that is still there when the restart is requested: stay (1) or stay and ignore SIGTERM (2)
+    match std::env::var("WX_HELPER_STAY").as_deref() {
+        Ok("1") => std::thread::sleep(std::time::Duration::from_secs(5)),
+        Ok("2") => { unsafe { nix::sys::signal::signal(nix::sys::signal::Signal::SIGTERM, nix::sys::signal::SigHandler::SigIgn).unwrap(); } std::thread::sleep(std::time::Duration::from_secs(5)) }
+        _ => {}
+    }
 }
 
 #[tokio::main(flavor = "current_thread")]
 async fn main() {
     if std::env::var_os("WX_HELPER_OUT").is_some() { return helper(); }
-    let seed: u64 = std::env::args().nth(1).and_then(|s| s.parse().ok()).unwrap_or(1);
-    let n: usize = std::env::args().nth(2).and_then(|s| s.parse().ok()).unwrap_or(1000);
-    let nspawn: usize = std::env::args().nth(3).and_then(|s| s.parse().ok()).unwrap_or(50);
+    // generator mode must be asked for explicitly: this binary is also the spawned helper, and a run whose spawn hook was
+    // lost (no helper environment) must not start generating — and spawning — again
+    if std::env::args().nth(1).as_deref() != Some("generate") { std::process::exit(3); }
+    let seed: u64 = std::env::args().nth(2).and_then(|s| s.parse().ok()).unwrap_or(1);
+    let n: usize = std::env::args().nth(3).and_then(|s| s.parse().ok()).unwrap_or(1000);
+    let nspawn: usize = std::env::args().nth(4).and_then(|s| s.parse().ok()).unwrap_or(50);
     let mut r = Rng(seed.wrapping_mul(0x9E3779B97F4A7C15) | 1);
     let mut cases = std::fs::File::create(out("cases.txt")).unwrap();
     let mut outs = std::fs::File::create(out("impl.txt")).unwrap();
@@ -73,15 +82,33 @@ async fn main() {
             let envv = s(&mut r);
             let (job, task) = start_job(cmd.clone());
             let (o2, e2, me2, pg2, ss2) = (outp.clone(), envv.clone(), me.clone(), mypg.clone(), mysess.clone());
-            job.set_spawn_hook(move |c, _| { c.command_mut().env("WX_HELPER_OUT", &o2).env("WX_T", &e2).env("WX_HELPER", &me2).env("WX_PG", &pg2).env("WX_SESS", &ss2).current_dir("/usr"); }).await;
+            // every fifth real spawn of an Exec command goes on to a second run through one of the respawn paths: the hook's
+            // changes (environment, working directory) must reach that run too
+            let scenario = if is_shell { 0 } else { (i % 10) / 2 % 6 };
+            let stay = match scenario { 0 => "0", 4 | 5 => "2", _ => "1" };
+            job.set_spawn_hook(move |c, _| { c.command_mut().env("WX_HELPER_OUT", &o2).env("WX_T", &e2).env("WX_HELPER", &me2).env("WX_PG", &pg2).env("WX_SESS", &ss2).env("WX_HELPER_STAY", stay).current_dir("/usr"); }).await;
             job.start().await;
-            job.to_wait().await;
-            let rep = std::fs::read_to_string(&outp).unwrap_or_default();
+            if scenario == 0 { job.to_wait().await; } else {
+                let lines = |p: &str| std::fs::read_to_string(p).map(|s| s.lines().count()).unwrap_or(0);
+                for _ in 0..300 { if lines(&outp) >= 1 { break; } tokio::time::sleep(std::time::Duration::from_millis(10)).await; }
+                use watchexec_signals::Signal; use std::time::Duration;
+                match scenario { 1 => { job.restart().await; } 2 => { job.try_restart().await; } 3 => { job.try_restart_with_signal(Signal::Terminate, Duration::from_secs(2)).await; }
+                    4 => { job.try_restart_with_signal(Signal::Terminate, Duration::from_millis(100)).await; } _ => { job.restart_with_signal(Signal::Terminate, Duration::from_millis(100)).await; } }
+                for _ in 0..300 { if lines(&outp) >= 2 { break; } tokio::time::sleep(std::time::Duration::from_millis(10)).await; }
+                job.stop().await;
+            }
+            let rep_all = std::fs::read_to_string(&outp).unwrap_or_default();
+            let runs: Vec<&str> = rep_all.lines().collect();
+            let rep = runs.first().map(|l| format!("{l}\n")).unwrap_or_default();
             let _ = std::fs::remove_file(&outp);
             // expected from the same source of truth as the model line: helper's argv = argv minus program (exec) or extra args incl $0 (shell)
             let exp_args: Vec<std::ffi::OsString> = if is_shell { if argv.len() > 3 { argv[3..].to_vec() } else { vec!["sh".into()] } } else { argv[1..].to_vec() };
             let exp = format!("argv={} pg={} sess={} cwd={} env={}\n", hxl(&exp_args), opts.session || opts.grouped, opts.session, hx(b"/usr"), hx(envv.as_bytes()));
             if rep != exp { oracle = format!("spawned child saw {} but the command says {}", rep.trim(), exp.trim()); }
+            if scenario != 0 {
+                if runs.len() != 2 { oracle = format!("respawn scenario {scenario}: {} runs reported instead of 2", runs.len()); }
+                else if format!("{}\n", runs[1]) != exp { oracle = format!("respawn scenario {scenario}: the second run saw {} but the command and its spawn hook say {}", runs[1], exp.trim()); }
+            }
             drop(job); task.abort();
         }
         writeln!(cases, "{line}").unwrap();
